@@ -66,7 +66,7 @@ func genTags(t *rapid.T) []Tag {
 }
 
 func gen(t *rapid.T) Case {
-	c := Case{Cores: rapid.IntRange(1, 4).Draw(t, "cores")}
+	c := Case{Cores: rapid.SampledFrom([]int{1, 1, 2, 3, 4}).Draw(t, "cores")}
 	n := rapid.IntRange(0, 25).Draw(t, "n")
 	kind := rapid.IntRange(0, 2).Draw(t, "kind0")
 	for i := 0; i < n; i++ {
@@ -114,7 +114,12 @@ func expand(c Case) []Element {
 					x.Lat = e.Lat
 				}
 			}
-			x.Tags = append(append([]Tag{}, e.Tags...), Tag{"seq", fmt.Sprint(len(out))})
+			x.Tags = append([]Tag{}, e.Tags...)
+			if c.Cores > 1 {
+				// several goroutines: a unique tag identifies each element; with one core elements
+				// are compared by position and keep exactly their generated tags, often none
+				x.Tags = append(x.Tags, Tag{"seq", fmt.Sprint(len(out))})
+			}
 			out = append(out, x)
 		}
 	}
@@ -275,6 +280,12 @@ func check(c Case) vlib.Outcome {
 		kinds[e.Kind] = true
 	}
 	out := vlib.Outcome{NonTrivial: len(kinds) >= 2 || len(written) > 8000, Classes: []string{fmt.Sprintf("cores=%d", c.Cores)}}
+	for i := 1; i < len(written); i++ {
+		if len(written[i].Tags) == 0 && len(written[i-1].Tags) > 0 && written[i].Kind == written[i-1].Kind {
+			out.Classes = append(out.Classes, "untagged-after-tagged")
+			break
+		}
+	}
 	if len(written) > 8000 {
 		out.Classes = append(out.Classes, ">8000-elements")
 	}
@@ -283,6 +294,6 @@ func check(c Case) vlib.Outcome {
 
 func TestProp(t *testing.T) {
 	vlib.Run(t, vlib.Config{ID: "C27", Name: "pbf-roundtrip", CaseTimeout: 120e9,
-		Rule: "0-25 element specifications in any interleaving of nodes, ways and relations, each occasionally standing for a run of 8000, 8001, 8002 or 16006 consecutive elements (block splits); IDs negative, small, ~2^40 and arbitrary; tags and roles from a pool with empty, repeated, non-ASCII and arbitrary strings; coordinates on and off the E7 grid in +-90/+-180; written with osm.Writer and read with ReadPBFWithOptions (1-4 cores) and ReadPBF; oracle: with one core the identical sequence, with several the same multiset and each goroutine's elements in file order; coordinates within one granularity step; non-trivial = >= 2 element kinds or more than 8000 elements"},
+		Rule: "0-25 element specifications in any interleaving of nodes, ways and relations, each occasionally standing for a run of 8000, 8001, 8002 or 16006 consecutive elements (block splits); IDs negative, small, ~2^40 and arbitrary; tags and roles from a pool with empty, repeated, non-ASCII and arbitrary strings; coordinates on and off the E7 grid in +-90/+-180; with one core elements carry exactly their generated tags (a quarter have none), with several a unique sequence tag is added to each; written with osm.Writer and read with ReadPBFWithOptions (1-4 cores) and ReadPBF; oracle: with one core the identical sequence, with several the same multiset and each goroutine's elements in file order; coordinates within one granularity step; non-trivial = >= 2 element kinds or more than 8000 elements"},
 		gen, check)
 }
